@@ -150,7 +150,16 @@ def canon(x, stored=frozenset(), depth=0):
     if id(x) in stored:
         return ("stored", id(x))
     if isinstance(x, torch.Tensor):
-        return ("T", tuple(x.shape), str(x.dtype), x.detach().flatten().tolist() if x.numel() <= 64 else float(x.detach().double().sum()))
+        try:
+            from torch._C._functorch import get_unwrapped, is_batchedtensor, maybe_get_bdim, maybe_get_level
+            if is_batchedtensor(x):      # the memo of torch.vmap (`_add_batch_dim`): a wrapper around the leaf
+                return ("B", maybe_get_level(x), maybe_get_bdim(x), canon(get_unwrapped(x), stored, depth + 1))
+        except ImportError:  # pragma: no cover
+            pass
+        try:
+            return ("T", tuple(x.shape), str(x.dtype), x.detach().flatten().tolist() if x.numel() <= 64 else float(x.detach().double().sum()))
+        except Exception as e:  # noqa
+            return ("T?", tuple(x.shape), str(x.dtype), type(e).__name__)
     if _is_tensor_collection(type(x)):
         items = []
         try:
